@@ -79,6 +79,33 @@ def _gen_circuit(rng, clifford=False, qudit=False):
     return cirq.Circuit(ops), list(qs)
 
 
+def _rekey_by_hand(c, f):
+    """the same circuit with every measurement key k replaced by f(k), REBUILT from the gates' own fields (not through with_key /
+    with_measurement_key_mapping): measurement gates keep invert mask, qid shape and confusion map; key conditions test the new key"""
+    import cirq
+
+    out = []
+    for m in c:
+        ops_ = []
+        for op in m:
+            conds = []
+            base = op
+            if isinstance(op.untagged, cirq.ClassicallyControlledOperation):
+                base = op.untagged.without_classical_controls()
+                for cnd in op.untagged.classical_controls:
+                    if not isinstance(cnd, cirq.KeyCondition):
+                        raise NotImplementedError("only key conditions are rebuilt by hand")
+                    conds.append(cirq.KeyCondition(f(cnd.key), cnd.index))
+            g = base.gate
+            if isinstance(g, cirq.MeasurementGate):
+                base = cirq.MeasurementGate(len(base.qubits), key=f(g.mkey), invert_mask=g.invert_mask, qid_shape=g._qid_shape, confusion_map=g.confusion_map).on(*base.qubits)
+            elif isinstance(g, cirq.PauliMeasurementGate):
+                base = cirq.PauliMeasurementGate(g.observable(), key=f(g.mkey)).on(*base.qubits)
+            ops_.append(base.with_classical_controls(*conds) if conds else base)
+        out.append(cirq.Moment(ops_))
+    return cirq.Circuit(out)
+
+
 def standin_born(tier, seed):
     import cirq
 
@@ -96,8 +123,19 @@ def standin_born(tier, seed):
     for i in range(n):
         mode = rng.choice(["plain", "plain", "clifford", "clifford", "qudit"])
         c, qs = _gen_circuit(rng, clifford=(mode == "clifford"), qudit=(mode == "qudit"))
+        # every third circuit runs under renamed keys (a key map or a path prefix, as sub-circuits and key-mapping calls do): the reference
+        # is the circuit rebuilt by hand under the new keys
+        rekey = rng.choice([None, None, "map", "prefix"])
         try:
-            want = refsim.ref_distribution(c, qs)
+            if rekey == "map":
+                ref_c = _rekey_by_hand(c, lambda k: cirq.MeasurementKey({"a": "z", "b": "y"}.get(k.name, k.name), k.path))
+                c = cirq.with_measurement_key_mapping(c, {"a": "z", "b": "y"})
+            elif rekey == "prefix":
+                ref_c = _rekey_by_hand(c, lambda k: k.with_key_path_prefix("p"))
+                c = cirq.with_key_path_prefix(c, ("p",))
+            else:
+                ref_c = c
+            want = refsim.ref_distribution(ref_c, qs)
         except (refsim.ControlBeforeMeasurement, NotImplementedError):
             continue
         for name, mk, needs in sims:
